@@ -35,6 +35,7 @@ fn run<S: shared::src_trait::Src>(harness: &str, src: &mut S) -> Outcome {
         "c05_gate" => r_c05::gate(src),
         "c14_execute_step" => r_c14::execute_step(src),
         h if h.starts_with("c16_activation") => r_c16::activation(src),
+        "c16_scheme" => r_c16::scheme(src),
         h if h.starts_with("c17_request") => r_c17::request(src),
         h if h.starts_with("c17_reply") => r_c17::reply(src),
         "c17_serviceinfo" => r_c17::serviceinfo(src),
